@@ -214,6 +214,12 @@ class MiniEval:
                 return env[e.id]
             if e.id in self.globals:
                 return self.globals[e.id]
+            if self.owner is not None and getattr(self.owner, 'mod', None) is not None:
+                # module-level constant of the owner's module (followed through imports)
+                r = self.idx.resolve(self.owner.mod, e.id)
+                if r and r[0] == 'const':
+                    sub = MiniEval(self.idx, self.owner, self.resolver, self.depth + 1, self.globals)
+                    return sub.expr(r[2], {})
             raise Undetermined('name %s' % e.id)
         if isinstance(e, (ast.List, ast.Tuple)):
             return [self.expr(x, env) for x in e.elts]
